@@ -4,8 +4,8 @@ import AbraModel.Drv.Util
    `srcmap build <line>*`            line = `L` | `<file>:<lineno>:<func>`  → the three tables
    `srcmap locs <line>*`             → lookup (pc+1) on the built tables for every instruction index pc
    `srcmap render <kind-hex> <loc>*` loc = `<file-hex>:<lineno>:<func-hex>` → hex of the `VmError` text -/
-namespace Abra.Drv
-open Abra.SrcMap
+namespace Abra.Drv.SrcMapD
+open Abra.SrcMap Abra.Drv
 
 def parseSLine (w : String) : Option SLine :=
   if w = "L" then some .label else
@@ -47,7 +47,7 @@ def parseLocs : List String → Option (List Loc)
     | some l, some ls => some (l :: ls)
     | _, _ => none
 
-def handleSrcMap : List String → String
+def handle : List String → String
   | "build" :: ws =>
     match parseSLines ws with
     | some ls =>
@@ -67,4 +67,8 @@ def handleSrcMap : List String → String
     | _, _ => "bad-op"
   | _ => "bad-op"
 
+end Abra.Drv.SrcMapD
+
+namespace Abra.Drv
+def handleSrcMap : List String → String := SrcMapD.handle
 end Abra.Drv
